@@ -836,6 +836,17 @@ def w2f_scan_complete(chk, repo, rid):
             e = ast.parse(t, mode='eval').body
             if isinstance(e, ast.Compare) and len(e.ops) == 1 and isinstance(e.ops[0], (ast.Gt, ast.GtE)):
                 e = ast.Compare(left=e.comparators[0], ops=[ast.Lt() if isinstance(e.ops[0], ast.Gt) else ast.LtE()], comparators=[e.left])
+            # the other end: a fact that keeps the found index away from 0 (`0 < i`, `1 <= i`, or `i <= 0` known false)
+            if isinstance(e, ast.Compare) and len(e.ops) == 1 and isinstance(e.ops[0], (ast.Lt, ast.LtE)) and it is not None:
+                lc_, rc_ = e.left, e.comparators[0]
+                if v and isinstance(lc_, ast.Constant) and isinstance(lc_.value, int) and unparse(rc_) == it:
+                    low = lc_.value + 1 if isinstance(e.ops[0], ast.Lt) else lc_.value          # i >= low
+                    if low >= 1:
+                        bad.append(f"`{t}` holds: the index is kept at or above {low}")
+                if not v and isinstance(rc_, ast.Constant) and isinstance(rc_.value, int) and unparse(lc_) == it:
+                    low = rc_.value if isinstance(e.ops[0], ast.Lt) else rc_.value + 1          # not (i < c) -> i >= c ; not (i <= c) -> i >= c + 1
+                    if low >= 1:
+                        bad.append(f"`{t}` is false: the index is kept at or above {low}")
             if not (isinstance(e, ast.Compare) and len(e.ops) == 1 and isinstance(e.ops[0], (ast.Lt, ast.LtE))):
                 continue
             l_ = simple_aff(sem.expand_names(f.node, st, e.left, chains=ch, allow_calls=('len',), keep=(S,)))
@@ -857,8 +868,8 @@ def w2f_scan_complete(chk, repo, rid):
                 if upper_excl < 0:
                     bad.append(f"`{t}` is {v}: the index is kept below len({S}) {int(upper_excl):+d}")
         chk.ob(rid, 'a W>F candidate is created for every found tryptophan, the last residue included', repo.loc(f, st), not bad,
-               '; '.join(bad) + ': a tryptophan at the last position of the peptide never gets its W>F form (peptides ending in W: C-terminal peptide of an ORF, '
-               'or a peptide cut in front of a Sec codon)', key=f.qual + '::w2f-scan', fn=f.qual)
+               '; '.join(bad) + ': a tryptophan at the first / last position of the peptide never gets its W>F form (peptides starting with W after a cleavage site; '
+               'peptides ending in W: C-terminal peptide of an ORF, or a peptide cut in front of a Sec codon)', key=f.qual + '::w2f-scan', fn=f.qual)
 
 
     # the other end of the scan: the first search starts at index 0.  For every `<seq>.find('W', X)` inside a loop, X evaluated with the
@@ -892,7 +903,7 @@ def w2f_scan_complete(chk, repo, rid):
 
 
 # ----------------------------------------------------------------------------- a writer / reader helper leaves its inputs as they are
-def readonly_inputs(chk, repo, rid, quals, what, floor=None):
+def readonly_inputs(chk, repo, rid, quals, what, floor=None, include_self=False):
     """R-EFFECT: the listed functions only READ the objects they are given (annotation models, records, proteome entries).  A local that
     is bound directly to an attribute chain of a parameter or of a loop variable (`xs = model.attr`) is an ALIAS of that object's
     own list; `xs += ...`, `xs.sort()`, `xs.append(...)` ... then change the model itself.  A value built by `+`, a call, a slice or a
@@ -902,14 +913,17 @@ def readonly_inputs(chk, repo, rid, quals, what, floor=None):
     for q in quals:
         f = repo.func(q)
         chk.uses(f)
-        roots = {a.arg for a in f.node.args.args + f.node.args.kwonlyargs if a.arg not in ('self', 'cls')}
+        roots = {a.arg for a in f.node.args.args + f.node.args.kwonlyargs if a.arg not in ('self', 'cls') or (include_self and a.arg == 'self')}
         # loop variables over (attributes of) inputs are inputs too
+        aroots = set()
         changed = True
         while changed:
             changed = False
             for n in ast.walk(f.node):
                 if isinstance(n, (ast.For, ast.comprehension)):
                     it = n.iter
+                    while isinstance(it, ast.Call) and isinstance(it.func, ast.Name) and it.func.id in ('enumerate', 'reversed', 'iter', 'zip') and it.args:
+                        it = it.args[0]          # the elements are those of the first argument
                     base = it
                     while isinstance(base, (ast.Attribute, ast.Subscript)):
                         base = base.value
@@ -917,11 +931,19 @@ def readonly_inputs(chk, repo, rid, quals, what, floor=None):
                         base = base.func.value
                         while isinstance(base, (ast.Attribute, ast.Subscript)):
                             base = base.value
-                    if isinstance(base, ast.Name) and base.id in roots:
+                    if isinstance(base, ast.Name) and base.id in roots | aroots:
                         for t in ast.walk(n.target):
                             if isinstance(t, ast.Name) and t.id not in roots:
                                 roots.add(t.id)
                                 changed = True
+                if isinstance(n, ast.Assign) and len(n.targets) == 1 and isinstance(n.targets[0], ast.Name) and isinstance(n.value, (ast.Attribute, ast.Subscript)) \
+                        and not (isinstance(n.value, ast.Subscript) and isinstance(n.value.slice, ast.Slice)):
+                    b_ = n.value
+                    while isinstance(b_, (ast.Attribute, ast.Subscript)):
+                        b_ = b_.value
+                    if isinstance(b_, ast.Name) and b_.id in roots | aroots and n.targets[0].id not in aroots:
+                        aroots.add(n.targets[0].id)          # a local bound to a container of the input: its elements are the input's
+                        changed = True
 
         def chain_root(e):
             while isinstance(e, (ast.Attribute, ast.Subscript)):
